@@ -441,6 +441,8 @@ def _run_unit(unit_dir, repo, workdir, rlimit=None, extra_args=None, timeout=900
     soft = [u for u in undec if any(k in u['message'].lower() for k in ('rlimit', 'resource limit', 'proof step of the verification script'))]
     if viol and undec and len(soft) == len(undec):
         res['rlimit_queries'] = [f"{u['function']} @{u['line']}" for u in soft]
+        # kept for the caller: if every violation turns out to be a listed known finding, these decide (-> undecided)
+        res['soft_undecided'] = [dict(u) for u in soft]
         undec = []
     if undec:
         res['status'] = 'undecided'
